@@ -27,6 +27,11 @@ NewF(op, operands) ==
 SetItemsF(st, xs) ==
   IF ArityOK(st.op, xs) THEN [ok |-> TRUE, st |-> Mk(st.op, xs)] ELSE [ok |-> FALSE, st |-> st]
 
+(* port.line = "<op> <operands>" on a live object: the whole expression is  *)
+(* replaced (operator, operands, set, string); nothing of the old one stays *)
+SetLineF(st, op, xs) ==
+  IF op \in Ops /\ ArityOK(op, xs) THEN [ok |-> TRUE, st |-> Mk(op, xs)] ELSE [ok |-> FALSE, st |-> st]
+
 (* inverse of the denotation, where one exists: the operands that denote a *)
 (* given canonical set under the object's operator                         *)
 HasInverse(op, ivs) ==
